@@ -89,7 +89,7 @@ impl Command for ResCmd {
                 line: c.line,
                 out: c.output_variable.clone(),
             });
-            note_invocation(h, c.variables, &c.env.halt);
+            note_invocation(h, c.variables, &mut c.env.halt);
         });
         let r = C3S.with(|s| {
             let mut s = s.borrow_mut();
@@ -149,7 +149,7 @@ impl Command for OnErrorCmd {
     fn run(&self, c: CommandInvocationContext) -> CommandResult {
         with_hz(|h| {
             h.trace.push(Event { cmd: "on_error".into(), args: c.arguments.clone(), line: c.line, out: None });
-            note_invocation(h, c.variables, &c.env.halt);
+            note_invocation(h, c.variables, &mut c.env.halt);
         });
         let seen = seen_variables(c.variables);
         let a = C3S.with(|s| {
